@@ -916,7 +916,14 @@ class SymBytes:
         if enc in ('utf8', 'u8') and E() is not None and len(self):
             hi = int('80' * len(self), 16)
             if not E().decide((self.bv() & hi) == 0):
-                return UniText.from_utf8(self)
+                try:
+                    return UniText.from_utf8(self)
+                except Unmodelled:
+                    # arbitrary symbolic bytes: the real decoder either returns some text or raises UnicodeDecodeError.
+                    # The result is kept as an opaque value (any use of its contents is Unmodelled); going on where the
+                    # real code might have stopped with an error over-approximates the behaviour, which is sound for the
+                    # bounds proved on such paths and can at worst yield a candidate that does not reproduce
+                    return OpaqueText(self)
         return AsciiText(self)
 
     def __hash__(self):
@@ -1002,6 +1009,23 @@ class AsciiText:
     def __ne__(self, o):
         r = self.__eq__(o)
         return (not r) if isinstance(r, bool) else ~r
+
+    def __hash__(self):
+        return 0
+
+    def __format__(self, spec):
+        return '<symbolic text>'
+
+
+class OpaqueText:
+    """result of decoding symbolic bytes that are not known to be valid UTF-8: may be stored and passed on, not inspected"""
+    def __init__(self, b):
+        self.b = b
+
+    def _un(self, *a, **k):
+        raise Unmodelled('contents of text decoded from unconstrained symbolic bytes')
+
+    __len__ = __eq__ = __ne__ = encode = __iter__ = __getitem__ = __add__ = __radd__ = _un
 
     def __hash__(self):
         return 0
